@@ -5,6 +5,7 @@ import (
 	"context"
 	"fmt"
 	"strings"
+	"sync"
 	"time"
 
 	"github.com/synnaxlabs/cesium"
@@ -661,8 +662,16 @@ func Run(sc Script, rep *kit.Report, cfg RunConfig) (st *State, env *Env, err er
 					}
 				}
 			}
+			var once sync.Once
 			hfs.SetHook(func(path string, flag int) {
-				if fired || !strings.HasSuffix(path, "_gc") {
+				if !strings.HasSuffix(path, "_gc") {
+					return
+				}
+				// the collector works on several channels at once: the hook can be entered
+				// from more than one goroutine, and the operations must be started once
+				first := false
+				once.Do(func() { first = true })
+				if !first {
 					return
 				}
 				fired = true
@@ -712,8 +721,14 @@ func Run(sc Script, rep *kit.Report, cfg RunConfig) (st *State, env *Env, err er
 			)
 			del := op
 			del.Kind = "delete"
+			var delOnce sync.Once
 			hfs.SetHook(func(path string, flag int) {
-				if fired || !strings.HasSuffix(path, "_gc") {
+				if !strings.HasSuffix(path, "_gc") {
+					return
+				}
+				first := false
+				delOnce.Do(func() { first = true }) // see gcwith: the collector is concurrent
+				if !first {
 					return
 				}
 				fired = true
